@@ -82,6 +82,10 @@ def location_rules(ctx, P):
         ins = ctx.find_calls(f, r"Vec::<T, A>::insert$")
         ok = len(ins) == 1 and ctx.expr(f, ins[0][1]["args"][0]) == "self.locations" and ctx.expr(f, ins[0][1]["args"][1]) == "0_usize" and "to_string(a2)" in ctx.expr(f, ins[0][1]["args"][2])
         ctx.ob(P + ".at.inserts-at-front", f.key, "locations.insert(0, location.to_string())", ok, "insert(%s)" % [[ctx.expr(f, a) for a in t["args"]] for _, t in ins])
+        # every location is recorded: a key equal to its parent's (`a/a`) is still a level of the path
+        rets_ = [bb for bb in sorted(f.normal_blocks()) if f.term(bb)["k"] == "return"]
+        ctx.ob(P + ".at.unconditional", f.key, "insert on every path", len(ins) == 1 and all(f.dominates(ins[0][0], r) for r in rets_) and ctx.pc_strs(f, ins[0][0]) == [set()],
+               "locations.insert must run on every call of at(): path condition %s" % (ctx.pc_strs(f, ins[0][0]) if ins else None))
         rs = ctx.ret_values(f)
         ctx.ob(P + ".at.returns-self", f.key, "return", rs == ["self"], "returns %s" % rs)
     f = ctx.fn(E + "at_path")
